@@ -77,8 +77,11 @@ def perturb(rng, cw, sb):
         elif k < 0.35: os.remove(base + p); tags.append('delete')
     for p in rng.sample(['/home/codex_home/prompts/extra1.md', '/home/codex_home/prompts/deep/dir/extra2.md', '/home/codex_home/skills/own/SKILL.md',
                          '/home/codex_home/skills/s0/added.txt', '/home/codex_home/top-level.txt', '/home/.claude/commands/mine.md',
-                         '/home/codex_home/prompts/.git/config', '/home/codex_home/skills/.agentpack/meta.json', '/home/codex_home/prompts/sub/.git/x'],
-                        rng.randrange(0, 5)):
+                         '/home/codex_home/prompts/.git/config', '/home/codex_home/skills/.agentpack/meta.json', '/home/codex_home/prompts/sub/.git/x',
+                         # names that merely START like the metadata directories are ordinary files
+                         '/home/codex_home/prompts/.gitkeep', '/home/codex_home/skills/own/.gitignore', '/home/codex_home/prompts/.github/review.md',
+                         '/home/.claude/commands/.gitattributes', '/home/codex_home/skills/.agentpack.bak/x.md', '/home/codex_home/prompts/.agentpackrc'],
+                        rng.randrange(0, 7)):
         world.write(base + p, b'extra\n'); tags.append('add')
     for r in cw.roots(None):
         k = rng.random()
